@@ -27,4 +27,6 @@ MUTATIONS = [
     ("table-loses-LYN-atom", "dat/AMBER.DAT", "LYN	HZ2", "LYN	HZ9", "fire"),
     # terminal rows would then share the key of the residue's own side chain and overwrite it (R4 keys-distinguish-groups)
     ("producer-keeps-termini", "main.py", 'if row["group_label"].startswith(row["res_name"])', 'if True', "fire"),
+    ("ph-rounded-after-parsing", "main.py", "    if args.assign_only or args.clean:", "    args.ph = round(args.ph, 2)\n    if args.assign_only or args.clean:", "fire"),
+    ("ph-read-into-a-local", "main.py", "    if args.assign_only or args.clean:", "    ph = args.ph\n    _LOGGER.debug(f\"pH {ph:.2f}\")\n    if args.assign_only or args.clean:", "silent"),
 ]
